@@ -424,9 +424,8 @@ def trace_lines(s, init):
         elif e["k"] == "ev" and e["cls"] == "ConnectionTerminated":
             out.append({"ev": "terminated", "ep": e["ep"], "code": e["code"]})
     for ep in "cs":
-        for line in s.keylog[ep].getvalue().splitlines():
-            parts = line.split()
-            if len(parts) == 3:
-                out.append({"ev": "secret", "ep": ep, "label": parts[0], "value": parts[2]})
+        pairs = [[p[0], p[2]] for p in (line.split() for line in s.keylog[ep].getvalue().splitlines()) if len(p) == 3]
+        if pairs:
+            out.append({"ev": "secrets", "ep": ep, "pairs": pairs})
     out.append({"ev": "end", "quiescent": bool(getattr(s, "quiescent_end", False))})
     return out
